@@ -1,0 +1,44 @@
+//go:build verif
+
+package pebblev2
+
+// Contracts for gocv (contract-based deductive verification, /verif).
+// Same helper contract as the in-memory backend: the batch is committed iff the callback
+// succeeded; on failure nothing is applied and the callback's error is returned.
+
+//@ extern func github.com/NethermindEth/juno/db.IndexedBatch.Write
+//@   logged as CommitIndexed
+//@   modifies *
+//@   modifies maps
+//@ extern func github.com/NethermindEth/juno/db.Batch.Write
+//@   logged as CommitPlain
+//@   modifies *
+//@   modifies maps
+//@ func (*DB).NewIndexedBatch
+//@   trusted
+//@ func (*DB).NewBatch
+//@   trusted
+
+//@ func (*DB).Update
+//@   props C15, C05
+//@   arith int
+//@   requires d != nil
+//@   modifies *
+//@   modifies maps
+//@   assigns calls_CommitIndexed
+//@   ensures closed: old(d.closed) ==> result != nil && calls(fn) == old(calls(fn)) && calls_CommitIndexed == old(calls_CommitIndexed)
+//@   ensures callback_once: !old(d.closed) ==> calls(fn) == old(calls(fn)) + 1
+//@   ensures nothing_applied_on_failure: !old(d.closed) && ret(fn) != nil ==> calls_CommitIndexed == old(calls_CommitIndexed) && result == ret(fn)
+//@   ensures committed_on_success: !old(d.closed) && ret(fn) == nil ==> calls_CommitIndexed == old(calls_CommitIndexed) + 1
+
+//@ func (*DB).Write
+//@   props C15, C05
+//@   arith int
+//@   requires d != nil
+//@   modifies *
+//@   modifies maps
+//@   assigns calls_CommitPlain
+//@   ensures closed: old(d.closed) ==> result != nil && calls(fn) == old(calls(fn)) && calls_CommitPlain == old(calls_CommitPlain)
+//@   ensures callback_once: !old(d.closed) ==> calls(fn) == old(calls(fn)) + 1
+//@   ensures nothing_applied_on_failure: !old(d.closed) && ret(fn) != nil ==> calls_CommitPlain == old(calls_CommitPlain) && result == ret(fn)
+//@   ensures committed_on_success: !old(d.closed) && ret(fn) == nil ==> calls_CommitPlain == old(calls_CommitPlain) + 1
